@@ -23,7 +23,7 @@ class C04(rt.RoundTrip):
     assumptions = ("permitted normalisations: a required option without default acquires the zero value of its type; an "
                    "untyped option is read as str / Optional[str]; an option that is not required is Optional[...]",)
     policy = {"absent_default": ("absent", "zero", "none"), "ret_absent_default": ("absent",),
-              "type_extra": ("str", "Optional[str]")}
+              "type_extra": ("str", "Optional[str]"), "zero_typ_fallback": "str", "ret_only_with_default": True}
 
     def ir_filter(self):
         return expressible, "argparse-expressible types only"
@@ -31,7 +31,7 @@ class C04(rt.RoundTrip):
     def option_list(self):
         if self.tier == "thorough":
             return [{"edd": e, "ww": w} for e in (False, True) for w in (True, False)]
-        return [{"edd": False, "ww": True}, {"edd": True, "ww": True}]
+        return [{"edd": False, "ww": True}, {"edd": True, "ww": True}, {"edd": False, "ww": False}]
 
 
 CHECK = C04
